@@ -88,7 +88,7 @@ class Generated:
 
 def _parse_block(lines: list[str]):
     d = {"props": [], "requires": [], "ensures": [], "prologue": None, "loops": {}, "rename": None, "result": "r",
-         "attrs": [], "raw": False, "fragment": None, "subst": [], "novac": False, "safety": True, "opens": False, "oblig": None, "keepvis": False}
+         "attrs": [], "raw": False, "fragment": None, "subst": [], "novac": False, "safety": True, "opens": False, "oblig": None, "keepvis": False, "constensures": []}
     last = None
     for ln in lines:
         body = ln.strip()
@@ -154,6 +154,11 @@ def _parse_block(lines: list[str]):
             d["safety"] = False
         elif word == "keepvis":
             d["keepvis"] = True
+        elif word in ("wrapper", "wrapper_pre", "wrapper_post"):
+            d[word] = (d.get(word, "") + "\n" + rest).strip() if word != "wrapper" else rest
+        elif word == "constensures":
+            oid, _, clause = rest.partition(":")
+            d["constensures"].append((oid.strip(), clause.strip()))
         elif word == "oblig":
             head, _, txt = rest.partition(":")
             hp = head.split()
@@ -301,12 +306,41 @@ def generate(template_path: str, snapshot: str) -> Generated:
             fired.update(f)
             if d["fragment"]:
                 text = fragment(text, file, *d["fragment"])
+                if d.get("wrapper"):
+                    # the fragment becomes the body of a generated wrapper fn whose parameters are the fragment's free locals;
+                    # only the wrapper's signature, local initialisation and result expression come from the template
+                    text = (d["wrapper"] + " {\n        " + d.get("wrapper_pre", "") + "\n        " + text + "\n        "
+                            + d.get("wrapper_post", "") + "\n    }")
+                    d["fragment"] = None
             for (x, y) in d["subst"]:
                 if x not in text:
                     raise ExtractError(f"{file} | {item}: anchor lost: substitution source `{x}` not present")
                 text = text.replace(x, y)
                 substs.append(f"{file} | {item}: `{x}` => `{y}`")
             indent = re.match(r"\s*", ln).group(0)
+            if d["constensures"]:
+                # R4 for constants: `const N: T = E;` -> `exec const N: T ensures <clauses> { E }`
+                m = re.search(r"\bconst\s+([A-Za-z_0-9]+)\s*:\s*(.*?)\s*=\s*(.*);\s*$", text, re.S)
+                if not m:
+                    raise ExtractError(f"{file} | {item}: anchor lost: not a `const N: T = E;` item")
+                vis = "pub " if re.match(r"\s*pub\b", text) else ""
+                cname = m.group(1)
+                base = cur_line()
+                hdr = f"{vis}exec const {cname}: {m.group(2)}\n    ensures\n"
+                lines_ = hdr
+                info = FnInfo(name=cname, qual=f"{file} | {item}", props=d["props"], line_lo=base, line_hi=0,
+                              safety_id=f"{unit}.{cname}.safety")
+                for oid, clause in d["constensures"]:
+                    line_to_oid[base + lines_.count("\n")] = oid
+                    obligations.append(Obligation(oid, d["props"], "ensures", clause, cname, info.qual, base + lines_.count("\n")))
+                    lines_ += f"        {clause},\n"
+                lines_ += "{ " + m.group(3) + " }"
+                info.line_hi = base + lines_.count("\n")
+                fns.append(info)
+                block_txt = "\n".join(indent + t if t.strip() else t for t in lines_.split("\n"))
+                out_main.append(block_txt)
+                out_vac.append(block_txt)
+                continue
             if d["raw"] or d["fragment"]:
                 rendered = text
                 block_txt = "\n".join(indent + t if t.strip() else t for t in rendered.split("\n"))
